@@ -13,7 +13,7 @@ for f in sorted(glob.glob(os.path.join(ROOT, "seeded", "*", "meta.json"))):
 with open(os.path.join(ROOT, "seeded", "RESULTS.md"), "w") as fd:
     fd.write("# Independently authored breaking changes (sub-agents given only the property text and a scratch worktree)\n\n")
     fd.write("Each row was re-verified in a scratch copy of /repo: the repository's tests pass with the change, the demonstration exits 0 "
-             "without it and non-zero with it; then the quick check of the target property and of every property anchored in a file the patch touches was run against the changed copy (`tools/seed_matrix.sh`; older rows: every quick check, `tools/seed_eval.sh`).\n\n")
+             "without it and non-zero with it; then the quick check of the target property was run against the changed copy (`tools/seed_targets.sh`, the final regression pass; rows that list further checks were also evaluated against every property anchored in a touched file by `tools/seed_matrix.sh` or `tools/seed_eval.sh` earlier).\n\n")
     fd.write("| seed | breaks | repository tests with the change | demo exit without / with | quick checks that report it | notes |\n|---|---|---|---|---|---|\n")
     for r in rows:
         fd.write(f"| {r[0]} | {r[1]} | {r[2]} | {r[3]} / {r[4]} | {r[5]} | {r[6]} |\n")
